@@ -132,7 +132,9 @@ def run_case(desc):
     for texts in h.texts:
         texts.pop('__data__', None)
         texts.pop('__force_data__', None)
-    proj = projlab.Project()
+    # every third case: the observed database is `other`, next to a
+    # fully installed `default` (projlab decoy mode)
+    proj = projlab.Project(decoy=desc.get('i', 0) % 3 == 1)
     items, stats = [], {'schedules': 1, 'runs': 0,
                         'data_evolutions': len(data_labels)}
     executed = {}            # (app, label) -> times executed
@@ -473,6 +475,7 @@ def run_case(desc):
             if ev is not None and not ev.get('fault_fired'):
                 stats['late_fault_not_fired'] = 1
     finally:
+        stats['decoy_runs'] = proj.decoy_runs
         proj.cleanup()
     nontrivial = bool(executed) and bool(
         set(recorded_by_run) - set(executed))
